@@ -100,10 +100,11 @@ def apply(m, o):
         if form == "obj":
             arg = [m.genes.get_by_id(g) for g in o[1]]
         elif form == "idx":
-            arg = [m.genes.index(g) for g in o[1]]
+            # positions; every second one counted from the end (negative, as for any Python sequence)
+            arg = [m.genes.index(g) - (len(m.genes) if k % 2 else 0) for k, g in enumerate(o[1])]
         elif form.startswith("bare"):      # a single gene given without a list (DictList.get_by_any wraps it)
             g = o[1][0]
-            arg = {"bare-id": g, "bare-obj": m.genes.get_by_id(g), "bare-idx": m.genes.index(g)}[form]
+            arg = {"bare-id": g, "bare-obj": m.genes.get_by_id(g), "bare-idx": m.genes.index(g) - (len(m.genes) if len(g) % 2 else 0)}[form]
         else:
             arg = list(o[1])
         return knock_out_model_genes(m, arg)
